@@ -497,7 +497,7 @@ func checkC12(c *Ctx, r *Report) {
 		r.Check(ok, name+"|record "+a.field, m.Lit.Pos(), "recorded", "the session's "+a.field+" field is not the negotiated algorithm")
 	}
 	// hasher/cipher constructed from the negotiated algorithm
-	for _, w := range []struct{ field, payload, alg string }{{"integrityAlgorithm", "IntegrityPayload", "IntegrityAlgorithm"}, {"confidentialityLayer", "ConfidentialityPayload", "ConfidentialityAlgorithm"}} {
+	for _, w := range []struct{ field, payload, alg string }{{fInteg, "IntegrityPayload", "IntegrityAlgorithm"}, {fConf, "ConfidentialityPayload", "ConfidentialityAlgorithm"}} {
 		v := lit[w.field]
 		ok := false
 		if ex, isEx := v.(*ssa.Extract); isEx && ex.Index == 0 {
